@@ -16,3 +16,41 @@ func netipAddrOfOrig(o OriginatorIDPathAttr) netip.Addr { return netip.Addr(o) }
 func c18u32At(s []uint32, i int) uint32 { return verifAtU32(s, i) }
 
 func c20zeroMutex() (m syncMutex) { return }
+
+// the other connection direction (own helper: harnesses do not depend on incidental unexported helpers of the library)
+func verifOtherDir(i int) int { return 1 - i }
+
+// message type octets (RFC 4271 §4.1): own constants, so that harnesses do not depend on the names of the library's
+const (
+	verifMsgOpen         uint8 = 1
+	verifMsgUpdate       uint8 = 2
+	verifMsgNotification uint8 = 3
+	verifMsgKeepalive    uint8 = 4
+)
+
+// c20Addr returns a symbolic address of a symbolically chosen kind:
+// 0 invalid (zero Addr), 1 IPv4, 2 IPv6 (incl. v4-mapped, decided by the bytes), 3 zoned IPv6.
+func c20Addr(name string, kinds int) (netip.Addr, int) {
+	k := verifChoose(name+"-kind", kinds)
+	switch k {
+	case 0:
+		return netip.Addr{}, 0
+	case 1:
+		var a [4]byte
+		for i := range a {
+			a[i] = verifU8(name)
+		}
+		return netip.AddrFrom4(a), 1
+	default:
+		var a [16]byte
+		for i := range a {
+			a[i] = verifU8(name)
+		}
+		ad := netip.AddrFrom16(a)
+		if k == 3 {
+			ad = ad.WithZone("eth0")
+		}
+		return ad, k
+	}
+}
+
